@@ -395,3 +395,18 @@ claim("C31", DSJ,
       "bytes salted with short branches; default and random configurations; start addresses inside the buffer.",
       "TLC; x86-32; no delay slots; one recorded known finding (merging on truncated graphs), decided by TLC",
       "DESIGN.md 5/C31", "Disasm")
+
+LYJ = ("TLA+ statement of what an assembled layout must satisfy (Layout.tla: pinned labels, disjoint patches inside the range, contiguous "
+       "fall-through, decoding equal to the program with labels resolved) together with a witness layout that TLC validates, used as "
+       "the deciding oracle on what asm_resolve_final returns")
+
+claim("C32", LYJ,
+      "Random x86-32 programs of 2..5 chains (jumps, calls, memory operands, immediates and label + 4 referring to other chains, data "
+      "words) are assembled once with every chain pinned (the witness: TLC checks it is disjoint and inside the range, so a layout "
+      "exists) and again with a random subset of chains left free, in a roomy range (witness end + the assembler's pessimistic "
+      "reservation) and in a tight one. TLC requires, per Layout.tla, success, every pinned label at its address, disjoint patches "
+      "inside the range, contiguous fall-through blocks, and each block's bytes decoding to the program's instructions with labels "
+      "replaced by their final addresses.",
+      "TLC; x86-32; one recorded known finding (tight ranges fail on the pessimistic size reservation), confirmed per program by the "
+      "roomy-range run",
+      "DESIGN.md 5/C32", "Layout")
